@@ -486,6 +486,21 @@ func gen(rng *vh.Rng, n int, emit func(id string, sel int, in []int64, kind stri
 		{Code: 10}, {Code: 9},
 	}
 	emit("snapshot-node-task-of-job-outside-snapshot", 1, encCase(sn), "fixed", true, describe(sn))
+	// AddBindTask onto a placeholder NodeInfo (pod seen before its node; node removed under a running
+	// pod) is refused like an unknown node (fix 8dab8c3); onto the re-added node it is accepted
+	ph := []opT{
+		{Code: 5, PG: cachectl.PGSpec{ID: 2, UID: 1, Queue: 1, Min: 1}},
+		{Code: 1, Pod: cachectl.PodSpec{ID: 1, Job: 2, Node: 1, Phase: 2, Role: 1, CPU: 2000, Mem: 1 << 20}},
+		{Code: 1, Pod: cachectl.PodSpec{ID: 2, Job: 2, Phase: 1, Role: 1, CPU: 1000, Mem: 1 << 20}},
+		{Code: 11, A: []int64{2, 2, 1}, F: 1},
+		{Code: 3, Node: cachectl.NodeX{NodeSpec: sched.NodeSpec{ID: 1, Has: true, CPU: 8000, Mem: 1 << 30, Pods: 10}}},
+		{Code: 4, A: []int64{1}},
+		{Code: 11, A: []int64{2, 2, 1}, F: 0},
+		{Code: 3, Node: cachectl.NodeX{NodeSpec: sched.NodeSpec{ID: 1, Has: true, CPU: 8000, Mem: 1 << 30, Pods: 10}}},
+		{Code: 11, A: []int64{2, 2, 1}, F: 0},
+		{Code: 10}, {Code: 9},
+	}
+	emit("bind-onto-placeholder-refused", 1, encCase(ph), "fixed", true, describe(ph))
 
 	// PriorityClass witnesses: a job without priorityClassName gets the default priority in Snapshot()
 	base := []opT{{Code: 7, A: []int64{1}}, {Code: 5, PG: cachectl.PGSpec{ID: 2, UID: 1, Queue: 1, Min: 1}},
